@@ -105,6 +105,18 @@ func runConv(sc M) {
 			if got := sl.Bytes(); len(got) < 16 || !bytes.Equal(got[:16], w) {
 				fail("SignatureList type on the wire = %x, specification %x", got[:16], w)
 			}
+			// as the certificate-type GUID of an authentication descriptor: bytes 24..39 of the encoding, and back
+			{
+				d := signature.NewEFIVariableAuthentication2()
+				d.AuthInfo.CertType = *g
+				var wb bytes.Buffer
+				d.Marshal(&wb)
+				if enc := wb.Bytes(); len(enc) < 40 || !bytes.Equal(enc[24:40], w) {
+					fail("certificate-type GUID inside an encoded authentication descriptor = %x, specification %x", enc[24:min(40, len(enc))], w)
+				} else if back, err := signature.ReadEFIVariableAuthencation2(bytes.NewReader(enc)); err != nil || back.AuthInfo.CertType != *g {
+					fail("certificate-type GUID of a descriptor decoded from its own encoding differs from the GUID (%v)", err)
+				}
+			}
 			// and decoded back from the wire
 			l2, err := signature.ReadSignatureData(bytes.NewReader(append(append([]byte{}, w...), 1)), 17)
 			if err != nil || l2.Owner != *g {
